@@ -110,6 +110,11 @@ def generate(rng, tier):
         # a name with letters outside ASCII re-bound in another letter case is the same variable of the session
         (["Ödeme = 5", "ödeme = 6", "ödeme + 1\nÖDEME * 2"], [["5"], ["6"], ["7", "12"]]),
         (["Gümüş Ücret = 100\ngümüş ücret = 25", "GÜMÜŞ ÜCRET * 5", "Τιμή = 5\nτιμή = 6\nΤΙΜΉ + 1"], [["100", "25"], ["125"], ["5", "6", "7"]]),
+        # a re-binding that fails to evaluate (incompatible kinds) leaves the variable of the session as it was
+        (["x = 10", "x = 2 hours + 5 usd", "x", "x = x + 1\nx"], [["10"], [None], ["10"], ["11", "11"]]),
+        (["rate = 5\nrate = 2 hours * 3 hours\nrate + 1", "rate * 2"], [["5", None, "6"], ["10"]]),
+        # texts of growing line counts: no line of the longer text is skipped
+        (["a = 1", "b = 2\nc = 3\nb + c", "a + b + c\na\nb\nc\n10 * c"], [["1"], ["2", "3", "5"], ["6", "1", "2", "3", "30"]]),
         # texts of shrinking line counts: every line of the NEW text is evaluated exactly once, nothing of the old one
         (["total = 1\ntotal = total + 50\ntotal", "total", "", "total + 1"], [["1", "51", "51"], ["51"], [None], ["52"]]),
     ]
